@@ -40,7 +40,10 @@ pub fn run_property(prop: &str, tier: Tier, seed: u64, scale: f64) -> i32 {
     let mut level = "exploration";
     let mut exhaustive = None;
     let batches: Vec<BatchOut> = match prop {
-        "C02" => vec![batch(&Offer { mode: OfferMode::State }, tier, seed, 60_000, 1_500_000, scale)],
+        "C02" => vec![
+            batch(&Offer { mode: OfferMode::State, large: false }, tier, seed, 60_000, 1_500_000, scale),
+            batch(&Offer { mode: OfferMode::State, large: true }, tier, seed, 400, 20_000, scale),
+        ],
         "C01" => vec![
             batch(&Pair { mode: PairMode::Converge, large: false }, tier, seed, 80_000, 1_500_000, scale),
             batch(&Pair { mode: PairMode::Converge, large: true }, tier, seed, 600, 30_000, scale),
@@ -92,7 +95,7 @@ pub fn run_property(prop: &str, tier: Tier, seed: u64, scale: f64) -> i32 {
         "C18" => vec![batch(&Docs { mode: DocsMode::Migrate }, tier, seed, 30_000, 800_000, scale)],
         "C08" => vec![batch(&Pair { mode: PairMode::Differential, large: false }, tier, seed, 50_000, 800_000, scale)],
         "C13" => vec![
-            batch(&Offer { mode: OfferMode::Heads }, tier, seed, 60_000, 1_500_000, scale),
+            batch(&Offer { mode: OfferMode::Heads, large: false }, tier, seed, 60_000, 1_500_000, scale),
             batch(&Decoders { mode: PureMode::Heads }, tier, seed, 30_000, 600_000, scale),
         ],
         _ => {
@@ -106,8 +109,9 @@ pub fn run_property(prop: &str, tier: Tier, seed: u64, scale: f64) -> i32 {
 
 fn replay_dispatch(prop: &str, scenario: &str, plan: Value) -> Result<(Option<crate::runner::Violation>, u64, Vec<String>), String> {
     match (prop, scenario) {
-        (_, "offer") => replay_plan(&Offer { mode: OfferMode::State }, plan),
-        (_, "offer-heads") => replay_plan(&Offer { mode: OfferMode::Heads }, plan),
+        (_, "offer") => replay_plan(&Offer { mode: OfferMode::State, large: false }, plan),
+        (_, "offer-large") => replay_plan(&Offer { mode: OfferMode::State, large: true }, plan),
+        (_, "offer-heads") => replay_plan(&Offer { mode: OfferMode::Heads, large: false }, plan),
         (_, "events") => replay_plan(&Events { only_download: false }, plan),
         (_, "events-download-flag") => replay_plan(&Events { only_download: true }, plan),
         (_, "forge") => replay_plan(&Forge, plan),
@@ -235,8 +239,8 @@ pub fn determinism(prop: Option<&str>, seeds: u64) -> i32 {
     let mut bad = Vec::new();
     let all = prop.is_none();
     let p = prop.unwrap_or("");
-    if all || p == "C02" { twice(&Offer { mode: OfferMode::State }, seeds, &mut bad); }
-    if all || p == "C13" { twice(&Offer { mode: OfferMode::Heads }, seeds, &mut bad); }
+    if all || p == "C02" { twice(&Offer { mode: OfferMode::State, large: false }, seeds, &mut bad); twice(&Offer { mode: OfferMode::State, large: true }, seeds.min(20), &mut bad); }
+    if all || p == "C13" { twice(&Offer { mode: OfferMode::Heads, large: false }, seeds, &mut bad); }
     if all || p == "C03" { twice(&Forge, seeds, &mut bad); }
     if all || p == "C04" { twice(&Swarm { big_skew: false }, seeds, &mut bad); twice(&Swarm { big_skew: true }, seeds.min(50), &mut bad); }
     if all || p == "C05" { twice(&QueryScen, seeds, &mut bad); }
